@@ -97,6 +97,8 @@ class Ctx:
         self.result: Any = None
         self.exc: str | None = None
         self.ghost: dict[str, Any] = {}
+        self.entry_clock: Any = 1  # allocation stamp at call entry: objects with born < entry_clock existed before the call
+        self._exit_clock: Any = None  # set at call sites; in prove mode the executor's current stamp
 
     def __getattr__(self, name: str) -> Any:
         args = self.__dict__.get("args", {})
@@ -105,6 +107,25 @@ class Ctx:
         if name == "self_" and "self" in args:
             return args["self"]
         raise AttributeError(name)
+
+    @property
+    def exit_clock(self) -> Any:
+        """Allocation stamp at call exit: every object the call allocated has entry_clock <= born < exit_clock."""
+        return self._exit_clock if self._exit_clock is not None else self.ex.born_clock
+
+    @exit_clock.setter
+    def exit_clock(self, v: Any) -> None:
+        self._exit_clock = v
+
+    def pre_existing(self, z: Any) -> Any:
+        """The object existed when the call was entered (allocation stamps are global and increasing)."""
+        return smt.born(z) < self.entry_clock
+
+    def allocated_by_call(self, z: Any) -> Any:
+        """The object was allocated during the call."""
+        import z3 as _z3
+
+        return _z3.And(smt.born(z) >= self.entry_clock, smt.born(z) < self.exit_clock)
 
     def arg(self, name: str) -> Any:
         return self.args[name]
